@@ -44,7 +44,15 @@ MUTANTS = [
     ('power-method-plain-transpose', 'scikit_tt/solvers/evp.py', "eigenvalue = (eigentensor.transpose(conjugate=True).dot(operator).dot(eigentensor))", "eigenvalue = (eigentensor.transpose().dot(operator).dot(eigentensor))", 'fn:power_method', 'sesquilinear-inner-product'),
     ('init-array-cap-only-without-threshold', 'scikit_tt/tensor_train.py', "                    if max_rank != np.inf:\n                        u = u[:, :np.minimum(u.shape[1], max_rank)]\n                        s = s[:np.minimum(s.shape[0], max_rank)]\n                        v = v[:np.minimum(v.shape[0], max_rank), :]\n\n                    # define new TT core", "                    elif max_rank != np.inf:\n                        u = u[:, :np.minimum(u.shape[1], max_rank)]\n                        s = s[:np.minimum(s.shape[0], max_rank)]\n                        v = v[:np.minimum(v.shape[0], max_rank), :]\n\n                    # define new TT core", 'TT.__init__(array)', 'ranks'),
     ('hod-previous-value-not-copied', 'scikit_tt/solvers/ode.py', "solution_prev = previous_value.copy()", "solution_prev = previous_value", 'fn:hod', 'frame'),
-    ('strang-works-on-stored-state', 'scikit_tt/solvers/ode.py', "        tmp = solution[i].copy()\n        tmp = __splitting_stage(K, np.arange(0, order, 2), tmp, threshold, 2 * max_rank)", "        tmp = solution[i]\n        tmp = __splitting_stage(K, np.arange(0, order, 2), tmp, threshold, 2 * max_rank)", 'fn:strang_splitting', 'frozen-state'),
+    ('strang-works-on-stored-state', 'scikit_tt/solvers/ode.py', "        tmp = solution[i].copy()\n\n        # Strang splitting\n        tmp = __splitting_stage(K, np.arange(0,order,2), tmp, threshold, 2*max_rank)", "        tmp = solution[i]\n\n        # Strang splitting\n        tmp = __splitting_stage(K, np.arange(0,order,2), tmp, threshold, 2*max_rank)", 'fn:strang_splitting', 'frozen-state'),
+    ('arr-left-stack-khatri-rao-wrong-order', 'scikit_tt/data_driven/regression.py', "stack_left[i] = np.einsum('ij, kj, ikl -> lj', stack_left[i - 1], stack_left[i], solution.cores[i - 1][:,:,0,:])", "stack_left[i] = np.einsum('kj, ij -> kij', stack_left[i], stack_left[i - 1]).reshape(-1, m)\n        stack_left[i] = solution.cores[i - 1].reshape(-1, solution.ranks[i]).T.dot(stack_left[i])", 'fn:__arr_construct_stack_left', 'sesquilinear-structure'),
+    ('arr-left-stack-khatri-rao-right-order (harmless)', 'scikit_tt/data_driven/regression.py', "stack_left[i] = np.einsum('ij, kj, ikl -> lj', stack_left[i - 1], stack_left[i], solution.cores[i - 1][:,:,0,:])", "stack_left[i] = np.einsum('ij, kj -> ikj', stack_left[i - 1], stack_left[i]).reshape(-1, m)\n        stack_left[i] = solution.cores[i - 1].reshape(-1, solution.ranks[i]).T.dot(stack_left[i])", 'fn:__arr_construct_stack_left', None),
+    ('arr-right-stack-basis-on-rank-leg', 'scikit_tt/data_driven/regression.py', "np.einsum('ikl, kj, lj -> ij', solution.cores[i + 1][:,:,0,:], stack_right[i], stack_right[i + 1])", "np.einsum('ikl, lj, kj -> ij', solution.cores[i + 1][:,:,0,:], stack_right[i], stack_right[i + 1])", 'fn:__arr_construct_stack_right', 'sesquilinear-structure'),
+    ('arr-micro-matrix-rows-in-wrong-order', 'scikit_tt/data_driven/regression.py', "np.einsum('ij,kj,lj->iklj', stack_left[i], micro_matrix, stack_right[i])", "np.einsum('ij,kj,lj->kilj', stack_left[i], micro_matrix, stack_right[i])", 'fn:__arr_construct_micro_matrix', 'design-matrix-roles'),
+    ('arr-micro-matrix-operands-reordered (harmless)', 'scikit_tt/data_driven/regression.py', "np.einsum('ij,kj,lj->iklj', stack_left[i], micro_matrix, stack_right[i])", "np.einsum('kj,ij,lj->iklj', micro_matrix, stack_left[i], stack_right[i])", 'fn:__arr_construct_micro_matrix', None),
+    ('arr-update-core-untransposed-system', 'scikit_tt/data_driven/regression.py', "lin.lstsq(micro_matrix.T, rhs, cond=rcond, lapack_driver='gelss')", "lin.lstsq(micro_matrix, rhs, cond=rcond, lapack_driver='gelss')", 'fn:__arr_update_core', ''),
+    ('arr-update-core-splits-rows-wrongly', 'scikit_tt/data_driven/regression.py', "        # save orthonormal part\n        solution.cores[i] = q.reshape(solution.ranks[i], solution.row_dims[i], 1, solution.ranks[i + 1])", "        # save orthonormal part\n        solution.cores[i] = q.reshape(solution.row_dims[i], solution.ranks[i], 1, solution.ranks[i + 1]).transpose([1, 0, 2, 3])", 'fn:__arr_update_core', ''),
+    ('arr-update-core-backward-rank-slot', 'scikit_tt/data_driven/regression.py', "            solution.ranks[i] = q.shape[0]", "            solution.ranks[i] = q.shape[1]", 'fn:__arr_update_core', ''),
 ]
 
 
